@@ -25,7 +25,7 @@ CONSTANTS MaxIf,        \* maximal number of configured interfaces
           MaxGen,       \* maximal number of (re)starts
           RestartRule,  \* DESIGN parameter: "stop_old" (as repaired) | "leak"
           PortRule,     \* DESIGN parameter: "opened" (as implemented) | "configured" | "sticky"
-          ShutdownRule, \* DESIGN parameter: "close_always" (as implemented) | "guarded" (no-op unless running)
+          ShutdownRule, \* DESIGN parameter: "close_always" (as implemented) | "guarded" (no-op unless running) | "close_only"
           TeardownOrder \* DESIGN parameter: "responder_first" (as implemented) | "interfaces_first" | "any"
                         \* (trace validation: the order itself is not observable, only the answers are judged)
 
@@ -63,7 +63,11 @@ WInit == /\ cfg \in Seqs(MaxIf) /\ up = {} /\ ever = {} /\ phase = "down" /\ gen
          /\ given = <<>> /\ last = [kind |-> "none"]
 
 (* UDPListener.shutdown of generation g *)
-CanClose(g) == ShutdownRule = "close_always" \/ g \in live
+(* "close_only": close() without shutdown(SHUT_RDWR) does not wake a thread blocked in recvfrom: a running  *)
+(* responder stays (its socket remains in the reuse-port group and swallows the requests it gets)          *)
+CanClose(g) == \/ ShutdownRule = "close_always"
+               \/ ShutdownRule = "guarded" /\ g \in live
+               \/ ShutdownRule = "close_only" /\ g \notin live
 Stopped(g) == IF RestartRule = "stop_old" /\ g > 0 /\ CanClose(g) THEN {g} ELSE {}
 
 (* (re)start with the interfaces u coming up; held: the new responder thread does not run yet *)
